@@ -48,22 +48,6 @@ def layout(toks, sep, rnd):
     return "".join(parts), spans
 
 
-def num_key(v):
-    """Canonical form of a number literal: harness `digits[e<exp>]`, spec: the integer text."""
-    if "e" in v:
-        d, e = v.split("e")
-        e = int(e)
-    else:
-        d, e = v, 0
-    d = d.lstrip("0") or "0"
-    while len(d) > 1 and d.endswith("0"):
-        d = d[:-1]
-        e += 1
-    if d == "0":
-        e = 0
-    return f"{d}e{e}"
-
-
 def expected_tree(n, spans):
     """Spec node (token indexes f, l) -> node with byte span for the layout `spans`."""
     kind = n["n"]
@@ -71,8 +55,7 @@ def expected_tree(n, spans):
         s = e = None
     else:
         s, e = spans[n["f"] - 1][0], spans[n["l"] - 1][1]
-    v = num_key(n["v"]) if kind == "num" else n["v"]
-    return {"n": kind, "v": v, "s": s, "e": e, "c": [expected_tree(c, spans) for c in n["c"]]}
+    return {"n": kind, "v": n["v"], "s": s, "e": e, "c": [expected_tree(c, spans) for c in n["c"]]}
 
 
 def show(n):
@@ -112,7 +95,7 @@ def compare(exp, got, path="root", parent_kind=None):
     """First difference between the expected tree and the tree the parser returned:
     None or (class, path, description)."""
     gk = got["n"]
-    gv = num_key(got["v"]) if gk == "num" else got["v"]
+    gv = got["v"]
     if exp["n"] != gk or exp["v"] != gv:
         return ("shape", path, f"expected {exp['n']}:{exp['v']!r}, parser built {gk}:{gv!r}")
     if len(exp["c"]) != len(got["c"]):
